@@ -95,7 +95,16 @@ Qed.
 
 (* ------------------------------------------------------------------ endpoints *)
 
+Lemma bsize_values b : lenN (LogModel.values b) = LogModel.bsize b.
+Proof. unfold LogModel.values, LogModel.bsize. apply lenN_map. Qed.
+
+Lemma nth_error_values b i lf : nth_error (bs b) i = Some lf -> nth i (LogModel.values b) [] = lv lf.
+Proof.
+  intros Hn. unfold LogModel.values. apply (map_nth_error lv) in Hn. apply nth_error_nth. exact Hn.
+Qed.
+
 Section Endpoints.
+  Set Default Proof Using "All".
   Variable H : bytes -> bytes.
   Variable sign : bytes -> N -> bytes.
   Variable is_precert : bytes -> bool.
@@ -116,9 +125,6 @@ Section Endpoints.
 
   Lemma broot_len b : blen (broot H b) = 32.
   Proof. unfold blen, broot. rewrite (mth_length H 32 H_len). reflexivity. Qed.
-
-  Lemma bsize_values b : lenN (values b) = bsize b.
-  Proof. unfold values, bsize. apply lenN_map. Qed.
 
   (* ---- get-sth-consistency *)
 
@@ -165,11 +171,6 @@ Section Endpoints.
   Qed.
 
   (* ---- get-entry-and-proof *)
-
-  Lemma nth_error_values b i lf : nth_error (bs b) i = Some lf -> nth i (values b) [] = lv lf.
-  Proof.
-    intros Hn. unfold values. apply (map_nth_error lv) in Hn. apply nth_error_nth. exact Hn.
-  Qed.
 
   Lemma entry_and_proof_200 st pli pts i t lf :
     parse_int64 pli = Some i -> parse_int64 pts = Some t ->
